@@ -32,7 +32,7 @@ type Violation struct {
 	Detail    string `json:"detail"`
 }
 
-func (v Violation) Class() string { return v.Property + "/" + v.Oracle }
+func (v Violation) Class() string { return v.Property + "/" + v.Oracle + "/" + v.Signature }
 
 // Result of one executed plan.
 type Result struct {
